@@ -94,7 +94,7 @@ pub broadcast axiom fn vmap_of_weak_values_is_weak<K, V: OwnView>(m: &VMap<K, V>
 impl<T> VMap<ContextID, WeakSender<T>> {
     pub uninterp spec fn view(&self) -> Map<int, int>;         // context id -> subscriber's mailbox
     #[verifier::external_body] pub fn is_empty(&self) -> (r: bool) ensures r <==> self@.dom() =~= Set::<int>::empty() { unimplemented!() }
-    #[verifier::external_body] pub fn len(&self) -> (r: usize) ensures (r == 0) <==> self@.dom() =~= Set::<int>::empty() { unimplemented!() }
+    #[verifier::external_body] pub fn len(&self) -> (r: usize) ensures (r == 0) <==> self@.dom() =~= Set::<int>::empty(), r as nat == self@.dom().len() { unimplemented!() }
     #[verifier::external_body]
     pub fn insert(&mut self, k: ContextID, v: WeakSender<T>) -> (r: Option<WeakSender<T>>) ensures final(self)@ == old(self)@.insert(k.0 as int, v.chan()) { unimplemented!() }
     #[verifier::external_body]
@@ -107,11 +107,16 @@ impl<T> VMap<ContextID, WeakSender<T>> {
     // retain(|_, s| s.upgrade().is_some()): entries of terminated subscribers are pruned, live ones kept
     #[verifier::external_body]
     pub fn retain_upgradable(&mut self, Tracked(w): Tracked<&mut World>)
-        ensures same_world(old(w), final(w)), final(self)@ == old(self)@.restrict(live_keys(old(self)@, old(w)))
+        ensures same_world(old(w), final(w)), final(self)@ == old(self)@.restrict(live_keys(old(self)@, old(w))), final(self)@.dom().len() <= old(self)@.dom().len()
     { unimplemented!() }
 }
 pub uninterp spec fn live_keys(subs: Map<int, int>, w: &World) -> Set<int>;     // the entries whose weak sender upgrades at this instant (a subset of the keys)
 pub uninterp spec fn key_order(subs: Map<int, int>, keys: Set<int>) -> Seq<int>; // the (unspecified) order in which HashMap::values yields them: every key once
+// what the two names above mean, as far as a body may rely on it without having iterated: the live entries are entries, and iterating
+// over no entries yields nothing
+pub broadcast axiom fn live_keys_are_keys(subs: Map<int, int>, w: &World, k: int) requires #[trigger] live_keys(subs, w).contains(k) ensures subs.dom().contains(k);
+pub broadcast axiom fn key_order_of_nothing(subs: Map<int, int>, keys: Set<int>) requires forall|k: int| !keys.contains(k) ensures #[trigger] key_order(subs, keys).len() == 0;
+pub broadcast group broker_table_axioms { live_keys_are_keys, key_order_of_nothing }
 pub open spec fn collected<T>(subs: Map<int, int>, keys: Set<int>, r: Seq<Sender<T>>) -> bool {
     &&& keys.subset_of(subs.dom()) && key_order(subs, keys).no_duplicates() && key_order(subs, keys).to_set() == keys
     &&& r.len() == key_order(subs, keys).len() && forall|i: int| #![auto] 0 <= i < r.len() ==> r[i].chan() == subs[key_order(subs, keys)[i]]
